@@ -24,6 +24,8 @@ theorem inv_step {T : Nat} {s s' : St} {o : Op} (hT : 1 ≤ T) (hi : Inv T s)
   | pause => simp only [step, Prod.mk.injEq, and_true] at h; subst h; exact inv_flow true hi
   | resume => simp only [step, Prod.mk.injEq, and_true] at h; subst h; exact inv_flow false hi
   | stall n => exact inv_stall hT hi h
+  | cpause k => simp only [step, Prod.mk.injEq, and_true] at h; subst h; exact inv_subPause k hi
+  | cresume k => simp only [step, Prod.mk.injEq, and_true] at h; subst h; exact inv_subResume k hi
 
 theorem reach_inv {T : Nat} {s : St} (hT : 1 ≤ T) (hr : Reach (Cfg.real T) s) : Inv T s := by
   induction hr with
@@ -80,6 +82,8 @@ theorem step_drops {T : Nat} {s : St} {o : Op} (ho : o.clock = none) :
   | reconnect => exact mgrInput_drops _ _ _
   | pause => rfl
   | resume => rfl
+  | cpause k => simp [step]
+  | cresume k => simp [step]
   | pong id =>
     simp only [step, gotPong]
     split
@@ -236,6 +240,8 @@ theorem step_pings {T : Nat} {s s' : St} {o : Op} {c : Nat} (hi : Inv T s) (hc :
     exact Or.inl (this ▸ hp)
   | pause => simp only [step, Prod.mk.injEq, and_true] at h; subst h; exact fun p hp => Or.inl hp
   | resume => simp only [step, Prod.mk.injEq, and_true] at h; subst h; exact fun p hp => Or.inl hp
+  | cpause k => simp only [step, Prod.mk.injEq, and_true] at h; subst h; intro p hp; simp at hp; exact Or.inl hp
+  | cresume k => simp only [step, Prod.mk.injEq, and_true] at h; subst h; intro p hp; simp at hp; exact Or.inl hp
   | pong id =>
     obtain ⟨h1, h2, h3, h4, h5, h6, h7, h8, h9, h10, h11, h12, h13⟩ := hi
     simp only [step, gotPong] at h
